@@ -97,11 +97,12 @@ Proof. exact (ex_intro _ _ w_gam_set_params_dropped). Qed.
 Print Assumptions C14_model_set_params_refuted.
 
 (* build_from_info (info t) has the settings that determine columns / penalties / constraints of t -- also after compiling both
-   on the same data -- when t has no edge knots GIVEN BY THE USER (knots left by an earlier fit are regenerated by every compile
-   since "fix: a spline term kept the knots of the first data set it was compiled on", and are not part of `behav`; nor is a
-   factor term's n_splines) and the attributes a FactorTerm hides (spline_order, basis, dtype, by, constraints) are at their
-   constructor values.  A tensor term's `by` IS carried over (since the repair "a tensor term rebuilt from its info lost its
-   by-variable"); only its `verbose` flag is not. *)
+   on the same data.  Edge knots given by the user are part of info and come back as given ("fix: a spline term's info dropped
+   edge knots given by the user"); knots left by an earlier fit are regenerated by every compile ("fix: a spline term kept the
+   knots of the first data set it was compiled on") and are not part of `behav`, nor is a factor term's n_splines; a tensor
+   term's `by` is carried over ("fix: a tensor term rebuilt from its info lost its by-variable").  _partial: the only guard
+   left is that the attributes a FactorTerm hides (spline_order, basis, dtype, by, constraints) are at their constructor
+   values -- see C14_info_roundtrip_refuted_hidden_factor; a tensor term's `verbose` flag is not carried over. *)
 Theorem C14_info_roundtrip_partial :
   (forall t, wf_term t -> roundtrip_guard t = true -> exists t', build_from_info (info t) = Some t' /\ behav t' = behav t) /\
   (forall dk nc t, wf_term t -> roundtrip_guard t = true ->
@@ -110,17 +111,18 @@ Proof. exact (conj info_roundtrip_guarded info_roundtrip_compiled_guarded). Qed.
 Print Assumptions C14_info_roundtrip_partial.
 
 Example C14_info_roundtrip_nonvacuous :
-  let t := TTe [SS (mkS 0 6 3 [NF 3 (-2)] [Some "auto"] [None] "ps" "numerical" None (Some (false, [NI 0; NI 1])) false);
+  let t := TTe [SS (mkS 0 6 3 [NF 3 (-2)] [Some "auto"] [None] "ps" "numerical" None (Some (true, [NI 0; NI 1])) false);
                 SF (mkS 1 4 0 [NI 2] [Some "l2"] [None] "ps" "categorical" None (Some (false, [NI 0; NI 3])) true) "dummy"] (Some 2%Z) true in
   wf_term t /\ roundtrip_guard t = true.
 Proof. cbv zeta. split; [wf | reflexivity]. Qed.
 
-(* the unguarded statement is false, two ways *)
-Theorem C14_info_roundtrip_refuted_edge_knots :
-  exists t, wf_term t /\ forall t', build_from_info (info t) = Some t' -> behav t' <> behav t.
-Proof. exact (ex_intro _ w_knots w_knots_refutes). Qed.
-Print Assumptions C14_info_roundtrip_refuted_edge_knots.
+(* the former counterexample (user-given edge knots) now round-trips exactly, and user knots distinguish terms *)
+Example C14_info_roundtrip_edge_knots :
+  let t := TS (SS (mkS 0 6 3 [NF 3 (-2)] [Some "auto"] [None] "ps" "numerical" None (Some (true, [NI (-1); NI 2])) false)) in
+  wf_term t /\ build_from_info (info t) = Some t /\ termlist [t; TS (SS w_spline); t] = [t; TS (SS w_spline)].
+Proof. exact w_knots_roundtrips. Qed.
 
+(* the unguarded statement is still false for hidden factor attributes *)
 Theorem C14_info_roundtrip_refuted_hidden_factor :
   exists t, wf_term t /\
     (exists ts, tl_set "spline_order" (VInt 2)
